@@ -6,7 +6,7 @@ ids = [p['id'] for p in props]
 
 CLAIMS = {
  "C18": dict(cat="other", ref="DESIGN.md section 4, C18",
-   text="EXPLICITLY WEAK: only necessary structural conditions, decided independently of the loop forms (helpers inlined with their loops; segments between loop heads classified by the successor they inspect) - both traversals compare only the key of cursor.fingers[index] after a nil test and advance iff it is less than the search key (siblings agree); the level loop begins a pass iff index >= 0, 'less' keeps the level, 'stop' lowers it by one, every traversal starts on the top level (first index = number of levels - 1 = len(head.fingers) - 1) with the cursor at the head, moves only to the inspected successor, the insertion path records the cursor once per level, the result is the level-0 successor; Put splices every level of the new node reading the successor before linking, a node's height never exceeds the list's levels, Remove's loop covers the node's levels and unlinks only where the path points to it; results under equal / not equal. The ordered-map behaviour over histories, the sorted-sublist invariant, and independence from random heights are NOT decided; of the printed form only its walk is decided (print-walk: String() goes from the head along level 0 until nil and renders every node it passes; print-node: a node shows its own key and, behind the finger's nil test, the key each finger points to; print-pure: it keeps no state) - that this chain is ascending and holds exactly the live keys rests on the undecided invariant. A new node's height is at least 1 on every path (node-height-positive; defect D9 repaired by a fix: commit). nil-guard: Put/Get/Remove read fields of the traversal's node result only behind its nil test (directly or through a helper that answers true only for a non-nil node).",
+   text="EXPLICITLY WEAK: only necessary structural conditions, decided independently of the loop forms (helpers inlined with their loops; segments between loop heads classified by the successor they inspect) - both traversals compare only the key of cursor.fingers[index] after a nil test and advance iff it is less than the search key (siblings agree); the level loop begins a pass iff index >= 0, 'less' keeps the level, 'stop' lowers it by one, every traversal starts on the top level (first index = number of levels - 1 = len(head.fingers) - 1) with the cursor at the head, moves only to the inspected successor, the insertion path records the cursor once per level, the result is the level-0 successor; Put splices every level of the new node reading the successor before linking, a node's height never exceeds the list's levels, Remove's loop covers the node's levels and unlinks only where the path points to it; results under equal / not equal. The ordered-map behaviour over histories, the sorted-sublist invariant, and independence from random heights are NOT decided; of the printed form only its walk is decided (print-walk: String() goes from the head along level 0 until nil and renders every node it passes; print-node: a node shows its own key and, behind the finger's nil test, the key each finger points to; print-pure: it keeps no state) - that this chain is ascending and holds exactly the live keys rests on the undecided invariant. A new node's height is at least 1 on every path (node-height-positive; defect D9 repaired by a fix: commit). The library's own ord.Int / ord.String are total orders (instance rules shared with C17). nil-guard: Put/Get/Remove read fields of the traversal's node result only behind its nil test (directly or through a helper that answers true only for a non-nil node).",
    note="assumes the comparison trait is a total order; internal/maplike is staged into a temporary module (no module of the repository builds it)",
    tech="static analysis: path constraints and counted-loop bounds over SSA of the staged package"),
  "C19": dict(cat="other", ref="DESIGN.md section 4, C19",
